@@ -3,7 +3,7 @@
 #include "invariants.hpp"
 namespace vf {
 
-inline ContentOpts fileContentOpts() { ContentOpts o; o.groupOrder = false; o.paramOrder = false; return o; }
+inline ContentOpts fileContentOpts() { ContentOpts o; o.groupOrder = false; o.paramOrder = false; o.trimA = false; o.trimB = false; return o; }   // both sides must already be trimmed
 
 // Loads `bytes` with ezc3d and compares with the reference decoder. Returns "" when equal.
 // selfTestFailed is set when the reference encoder/decoder disagree with each other (harness problem, never a violation).
@@ -79,7 +79,7 @@ inline std::string checkSavedFile(const ezc3d::c3d &obj, const std::string &path
     size_t wantBytes = d.dataOffset + 4 * nFramesHdr * perFrame;
     if (b.size() != wantBytes) return "file length " + std::to_string(b.size()) + " != blocks before data + frames x (4 x points + channels x sub-frames) floats = " + std::to_string(wantBytes);
     // content decoded from the file equals the object in memory
-    ContentOpts co; co.channelNames = false;
+    ContentOpts co; co.channelNames = false; co.trimA = true; co.trimB = false;
     std::string diff = diffContent(mem, file, co);
     if (!diff.empty()) return "content decoded from the saved file differs from the object (memory vs file): " + diff;
     return "";
